@@ -72,7 +72,7 @@ Section Complete.
     (** a skipped field has a default (derive time gives it [Default::default()] when none is written) *)
     Hypothesis SK : forall f, In f fs -> fi_skip f = true -> fi_default f <> None.
     (** flatten members are struct receivers *)
-    Hypothesis FS : forall f t, In (f, t) fields -> fi_flatten f = true -> exists c' fs', t = TStructR c' fs'.
+    Hypothesis FS : forall f t, In (f, t) fields -> fi_flatten f = true -> flat_target t = true.
     Hypothesis IHc : Forall (fun ft : finfo * ty =>
                                forall m v, is_meta m = true -> from_meta (impl (snd ft)) m = Ok v -> expected (snd ft) m = Some v) fields.
 
@@ -417,14 +417,14 @@ Section Complete.
             * rewrite nth_error_set_slot_same in Hs by exact Li. injection Hs as <-.
               assert (f = g) by congruence. subst g.
               destruct (FL1 f (nth_error_In _ _ Hf) Fg) as [Skf Muf].
-              destruct (FS f t (nth_error_In _ _ Hj) Fg) as [c' [fs' ->]].
-              unfold SpecSound.here_value. rewrite Skf, Fg.
+              pose proof (FS f t (nth_error_In _ _ Hj) Fg) as FT.
+              unfold SpecSound.here_value. rewrite Skf, Fg, (flat_target_here t _ FT).
               assert (v = vf) by (unfold check_one in Iv; destruct (needs_check f); cbn [fst init_field] in Iv; congruence). subst v.
               rewrite (conv_of_nth pf reparse reparse_arr reparse_preds sugg sim interp_with interp_fn fields i f _ Hj), Fl, (unclaimed_is_flat HFl) in R.
-              assert (FLv : from_list (impl (TStructR c' fs')) unclaimed = Ok vf).
-              { destruct (names fields); [exact R|]. destruct (from_list (impl (TStructR c' fs')) unclaimed); cbn [map_err] in R; congruence. }
+              assert (FLv : from_list (impl t) unclaimed = Ok vf).
+              { destruct (names fields); [exact R|]. destruct (from_list (impl t) unclaimed); cbn [map_err] in R; congruence. }
               apply (IHc_nth i f _ Hj (dummy_list unclaimed) vf eq_refl).
-              unfold dummy_list. rewrite from_meta_list by reflexivity. now rewrite FLv.
+              unfold dummy_list. rewrite from_meta_list by (now apply flat_target_meta). now rewrite FLv.
             * rewrite nth_error_set_slot_other in Hs by (auto; lia). rewrite (S1 j f Hf) in Hs. injection Hs as <-.
               assert (Ff : fi_flatten f = false).
               { destruct (fi_flatten f) eqn:Ff; [|reflexivity]. exfalso. apply Ne. exact (FL2 j i f g Hf Ng Ff Fg). }
@@ -443,7 +443,7 @@ Section Complete.
   Definition level_cwf (fields : list (finfo * ty)) : Prop :=
     level_wf fields
     /\ (forall f, In f (finfos fields) -> fi_skip f = true -> fi_default f <> None)
-    /\ (forall f t, In (f, t) fields -> fi_flatten f = true -> exists c' fs', t = TStructR c' fs').
+    /\ (forall f t, In (f, t) fields -> fi_flatten f = true -> flat_target t = true).
 
   Fixpoint cwf (t : ty) : Prop :=
     let cwf_fields :=
